@@ -270,7 +270,8 @@ def ancestorsOrSelf (t : Tree) (id : Id) : List Id := id :: ancestors t (treeFue
 
 /-- The per-call clauses: behaviour table followed, hidden_never, mouse_relative, event fields; then the call's
     actions are applied. -/
-def checkCall (m : Mon) (what : String) (origin : Id) (absL absC : Int) (button mod : Option Int) (blockStart : Bool) (c : Call) : Mon :=
+def checkCall (m : Mon) (what : String) (origin : Id) (absL absC : Int) (button mod : Option Int) (blockStart : Bool) (c : Call)
+    (following : List Item) : Mon :=
   let st := m.cur
   match findBinding st c.kind c.win c.idx with
   | none => m.fail s!"a handler ran that was never bound: window {c.win} index {c.idx}"
@@ -296,7 +297,17 @@ def checkCall (m : Mon) (what : String) (origin : Id) (absL absC : Int) (button 
       | some md => if c.ev.mod ≠ md then m.fail s!"window {c.win} was given modifiers {c.ev.mod}, expected {md}" else m
       | none => m
     let st := { st with binds := st.binds.setIfInBounds bi { b with count := b.count + 1 } }
-    e.actions.foldl (fun m a => specApply m c.kind a) { m with cur := st }
+    -- a reference dropped by this handler that was the last one destroys the window at once (its `D` item follows
+    -- before the next call): later actions of the same entry see the tree without it
+    let goneNow (w : Id) : Bool := following.any fun it => match it with | .destroyed x => x = w | _ => false
+    e.actions.foldl (fun m a =>
+      let m' := specApply m c.kind a
+      if a.act = Act.unref ∧ allowed m.cur a ∧ goneNow a.win then { m' with cur := specDestroy m'.cur a.win } else m')
+      { m with cur := st }
+
+def isCall : Item → Bool
+  | .call _ => true
+  | _ => false
 
 def nBindings (st : St) (kind : Kind) (win : Id) : Nat := (bindingsOf st.binds kind win).length
 
@@ -319,7 +330,9 @@ def checkSegment (m : Mon) (kind : Kind) (what : String) (origin : Option Id) (a
   let refOrder := refOrder.filter hasB
   let m := { m with affected := exempt }
   -- walk the items
-  let step := fun (acc : Mon × List Id × Option Call × Option Id) (it : Item) =>
+  let step := fun (acc : Mon × List Id × Option Call × Option Id) (iti : Item × Nat) =>
+    let (it, idx) := iti
+    let following := (items.drop (idx + 1)).takeWhile fun x => !isCall x
     let (m, seen, prev, claimer) := acc
     match it with
     | .destroyed w => ({ m with cur := specDestroy m.cur w }, seen, prev, claimer)
@@ -343,11 +356,11 @@ def checkSegment (m : Mon) (kind : Kind) (what : String) (origin : Option Id) (a
         | some p => if !blockStart ∧ (p.ev.line ≠ c.ev.line ∨ p.ev.col ≠ c.ev.col ∨ p.ev.type ≠ c.ev.type) then
             m.fail s!"{what}: the handlers of window {c.win} were given different events within one offer" else m
         | none => m
-      let m := checkCall m what (origin.getD 0) absL absC button mod blockStart c
+      let m := checkCall m what (origin.getD 0) absL absC button mod blockStart c following
       let seen := if seen.contains c.win then seen else seen ++ [c.win]
       (m, seen, some c, if c.ret then some c.win else claimer)
     | _ => acc
-  let (m, seen, prev, claimer) := items.foldl step (m, [], none, none)
+  let (m, seen, prev, claimer) := items.zipIdx.foldl step (m, [], none, none)
   let m := match prev with
     | some p => if !p.ret ∧ p.idx + 1 < nBindings m.cur kind p.win then
         m.fail s!"{what}: window {p.win} was offered the event but not all its handlers ran (none had claimed)" else m
@@ -366,10 +379,6 @@ def checkSegment (m : Mon) (kind : Kind) (what : String) (origin : Option Id) (a
 
 def isCallOfType (ty : Int) : Item → Bool
   | .call c => c.ev.type = ty
-  | _ => false
-
-def isCall : Item → Bool
-  | .call _ => true
   | _ => false
 
 /-- Split off the leading items that belong to a dispatch of event type `ty` (its calls and the `D` items among them). -/
